@@ -2,9 +2,9 @@ package props
 
 import (
 	"encoding/json"
-	"regexp"
 	"fmt"
 	"math/rand"
+	"regexp"
 	"sort"
 	"strings"
 
@@ -25,11 +25,11 @@ type c05Sched struct {
 
 type c05Case struct {
 	shellCfg
-	Comp   bool       `json:"comp"`
+	Comp   bool        `json:"comp"`
 	Steps  []sess.Step `json:"steps"` // the script, one token per step (raw bytes)
 	Tokens []string    `json:"-"`
 	Tags   []string    `json:"-"`
-	Scheds []c05Sched `json:"schedules"`
+	Scheds []c05Sched  `json:"schedules"`
 }
 
 func c05Gen(r *rand.Rand, tier string, idx int) any {
